@@ -512,6 +512,26 @@ class ArrayExpr(SingletonExpr):
             self._unlink_pushed_dependency(dependents)
         return result
 
+    def lower_once(self, lowered):
+        # The shared lowering cache is keyed by name alone, but chunk unification
+        # reads the config (unify-chunks policy and limit): a node of this name
+        # lowered earlier under another setting can sit on another block layout
+        # than the one *this* node advertises -- and that its parents planned
+        # against (a reshape plan, per-block arguments, ...).  Never serve such
+        # an entry; lower afresh instead.
+        try:
+            cached = lowered.get(self._name)
+        except AttributeError:
+            cached = None
+        if cached is not None and cached is not self:
+            try:
+                stale = not _chunks_match(cached.chunks, self.chunks)
+            except Exception:
+                stale = False
+            if stale:
+                del lowered[self._name]
+        return super().lower_once(lowered)
+
     def optimize(self, fuse: bool = True):
         expr = self.simplify().lower_completely()
         if fuse:
